@@ -44,6 +44,11 @@
 #include <xalanc/XSLT/XSLTInputSource.hpp>
 #include <xalanc/XSLT/XSLTResultTarget.hpp>
 
+#if defined(APACHE_XALAN_C_VERIF)
+#include <utility>
+#include <vector>
+#endif
+
 
 
 namespace XERCES_CPP_NAMESPACE
@@ -1118,6 +1123,29 @@ public:
 
         XalanDocumentBuilder* const m_documentBuilder;
     };
+
+#if defined(APACHE_XALAN_C_VERIF)
+    /**
+     * Verification hooks: reach the long-lived execution context and report
+     * the sizes of the transformer's own containers.  Add-only.
+     */
+    const StylesheetExecutionContextDefault*
+    verifGetExecutionContext() const
+    {
+        return m_stylesheetExecutionContext;
+    }
+
+    void
+    verifReportSizes(std::vector<std::pair<const char*, unsigned long> >&   out) const
+    {
+        out.push_back(std::make_pair("XalanTransformer::m_compiledStylesheets", static_cast<unsigned long>(m_compiledStylesheets.size())));
+        out.push_back(std::make_pair("XalanTransformer::m_parsedSources", static_cast<unsigned long>(m_parsedSources.size())));
+        out.push_back(std::make_pair("XalanTransformer::m_params", static_cast<unsigned long>(m_params.size())));
+        out.push_back(std::make_pair("XalanTransformer::m_functions", static_cast<unsigned long>(m_functions.size())));
+        out.push_back(std::make_pair("XalanTransformer::m_traceListeners", static_cast<unsigned long>(m_traceListeners.size())));
+        out.push_back(std::make_pair("XalanTransformer::m_errorMessage", static_cast<unsigned long>(m_errorMessage.size())));
+    }
+#endif
 
 protected:
 
